@@ -58,6 +58,7 @@ class OrderEval:
 
     def __init__(self, prog, f, env):
         self.prog, self.f, self.env = prog, f, dict(env)
+        self.arith = False      # arithmetic on the scalars: the order types no longer cover all inputs (a mismatch is still a concrete counterexample)
 
     def run(self, stmts):
         for st in stmts:
@@ -130,6 +131,16 @@ class OrderEval:
             raise AbsUnknown("bit operator on %s/%s" % (l[0], r[0]))
         if isinstance(e, ast.Compare) and len(e.ops) == 1:
             return self.compare(self.expr(e.left), e.ops[0], self.expr(e.comparators[0]))
+        if isinstance(e, ast.BinOp) and isinstance(e.op, (ast.Add, ast.Sub, ast.Mult)):
+            l, r = self.expr(e.left), self.expr(e.right)
+            if l[0] == r[0] == "num":
+                self.arith = True
+                return ("num", l[1] + r[1] if isinstance(e.op, ast.Add) else (l[1] - r[1] if isinstance(e.op, ast.Sub) else l[1] * r[1]))
+            raise AbsUnknown("arithmetic on %s/%s" % (l[0], r[0]))
+        if isinstance(e, ast.Call) and isinstance(e.func, ast.Name) and e.func.id in ("max", "min") and len(e.args) == 2:
+            l, r = self.expr(e.args[0]), self.expr(e.args[1])
+            if l[0] == r[0] == "num":
+                return ("num", max(l[1], r[1]) if e.func.id == "max" else min(l[1], r[1]))
         if isinstance(e, ast.Call):
             d = self.prog.dotted(self.f.module, e.func)
             name = None
@@ -179,16 +190,19 @@ def check_dominates(prog, rep):
         return
     o1, c1, o2, c2 = ps
     cells = 0
+    arith = False
     subsets = [frozenset(s) for k in (1, 2, 3, 0) for s in itertools.combinations(RELS, k)]
     for cv1 in (-2, -1, 0, 1, 2):
         for cv2 in (-2, -1, 0, 1, 2):
             for R in subsets:
                 env = {o1: ("vec", 1), o2: ("vec", 2), c1: ("num", cv1), c2: ("num", cv2), "@rels": R}
                 try:
-                    got = OrderEval(prog, f, env).run(body_nodoc(f.node))
+                    oe = OrderEval(prog, f, env)
+                    got = oe.run(body_nodoc(f.node))
                     if got is None:
                         raise AbsUnknown("a path falls off the end")
-                    got = OrderEval(prog, f, env).truth(got)
+                    got = oe.truth(got)
+                    arith = arith or oe.arith
                 except AbsUnknown as ex:
                     rep.unrec("R1-dominates", construct, "not a comparison-only predicate: %s" % ex)
                     return
@@ -204,6 +218,9 @@ def check_dominates(prog, rep):
                                 "order type cv1=%d cv2=%d, element-wise relations obj1?obj2 = %s (%s): returns %s, the dominance definition gives %s"
                                 % (cv1, cv2, rel, kind, got, want), where(f), str(want), str(got))
                     return
+    if arith:
+        rep.unrec("R1-dominates", construct, "the predicate does arithmetic on the constraint violations: order types do not cover all inputs (no counterexample among %d sampled cells)" % cells)
+        return
     rep.ok("R1-dominates", construct, "all %d order types (25 orderings of cv1, cv2, 0 x 8 relation sets) agree with feasibility-first Pareto dominance" % cells)
 
 
@@ -614,24 +631,44 @@ def _zero_test_keys(cur_key):
     return {Poly.atom(("cmp", "Eq", a, b)).key() for a, b in ((cur_key, ZERO), (ZERO, cur_key))}
 
 
+def _as_range(p):
+    """canonical atom red(max, X - min(X)) for the two ways a per-objective range is written: max(X - min X) and max(X) - min(X)"""
+    a = _single_atom(p)
+    if a is not None and a[0] == "red" and a[1] in ("max", "ptp", "nanmax"):
+        return a
+    if len(p.terms) == 2:
+        items = sorted(p.terms.items(), key=lambda kv: kv[1])
+        (m_neg, c_neg), (m_pos, c_pos) = items
+        if c_neg == -1 and c_pos == 1 and len(m_neg) == 1 and len(m_pos) == 1 and m_neg[0][1] == 1 and m_pos[0][1] == 1:
+            an, ap = m_neg[0][0], m_pos[0][0]
+            if isinstance(an, tuple) and isinstance(ap, tuple) and an[0] == ap[0] == "red" and an[1] == "min" and ap[1] == "max" and an[2:] == ap[2:]:
+                X = Poly({m: _frac(c) for m, c in ap[2]})
+                shifted = X - Poly.atom(an)
+                return ("red", "max", shifted.key()) + tuple(ap[3:])
+    return None
+
+
 def classify_den(r, params):
     """-> (kind, payload) kind in const | range-unguarded | range-guarded | norm2 | other"""
     if r.const_value() is not None:
         return ("const", None) if r.const_value() != 0 else ("other", "literal zero")
     a = _single_atom(r)
+    rg = _as_range(r)
+    if rg is not None:
+        return ("range-unguarded", rg)
     if a is None:
         return ("other", r.show()[:60])
-    if a[0] == "red" and a[1] in ("max", "ptp", "nanmax"):
-        return ("range-unguarded", a)
     if a[0] == "setitem":
         cur, idx, val = a[1], a[2], a[3]
-        ca = _single_atom(Poly({m: _frac(c) for m, c in cur}))
-        if ca is not None and ca[0] == "red" and ca[1] in ("max", "ptp", "nanmax"):
+        ca = _as_range(Poly({m: _frac(c) for m, c in cur}))
+        if ca is not None:
             v = Poly({m: _frac(c) for m, c in val}).const_value()
             if idx in _zero_test_keys(cur) and v is not None and v != 0:
                 return ("range-guarded", ca)
             if idx in _zero_test_keys(cur) and v is not None and v == 0:
                 return ("range-unguarded", ca)      # zero replaced by zero: nothing guarded
+            if "np.isclose" in repr(idx) or "np.allclose" in repr(idx):
+                return ("range-tolerance", ca)
             return ("other", "range with a substitution that is not `x[x == 0] = <non-zero constant>`")
     if a[0] == "np.where" and len(a) == 4:
         cond, x, y = a[1], a[2], a[3]
@@ -663,7 +700,7 @@ class GeoVN(VN):
         if op is ast.Div:
             kind, payload = classify_den(r, self.params)
             self.divs.append((node, r, kind, payload))
-            if kind in ("range-unguarded", "range-guarded"):
+            if kind in ("range-unguarded", "range-guarded", "range-tolerance"):
                 return l * Poly.atom(("invrange", payload))
         return super().binop(op, l, r, node)
 
@@ -741,6 +778,10 @@ def check_transformations(prog, rep):
             elif kind == "norm2":
                 rep.ok("R3-guard", c3, "squared norm of the preference vector %s (non-zero by the property's precondition%s)"
                        % (payload, "; asserted" if any(payload in p for p in pre) else ""))
+            elif kind == "range-tolerance":
+                rep.violate("R3-guard", c3, "the zero-range guard is a tolerance test (numpy.isclose): an objective whose range is small but not zero is treated as constant and left "
+                            "unscaled, so the distances change under translation and positive rescaling of that objective", where(f, node),
+                            "range[range == 0.0] = 1.0", "range[numpy.isclose(...)] = 1.0")
             elif kind == "range-unguarded":
                 rep.violate("R3-guard", c3, "division by the per-objective range without a zero substitution: a constant objective gives 0/0 = NaN for every point",
                             where(f, node), "range[range == 0] = 1 before dividing", "1 / %s" % r.show()[:60])
